@@ -146,7 +146,8 @@ def thorough_extra(prop, module, ctx):
                 fv = F.extract(ndebug=True, repo=scratch)
                 cv = Ctx(prop, "thorough", fv)
                 module.run(cv)
-                bad = [o for o in cv.obs if not o.ok]
+                known_keys = {k["key"] for k in load_known() if k.get("property") == prop and k.get("status") == "known"}
+                bad = [o for o in cv.obs if not o.ok and (o.key or "") not in known_keys]
                 results.append({"variant": label, "outcome": "detected" if bad else "MISSED",
                                 "reported": ["%s %s" % (o.rule, o.instance) for o in bad[:3]]})
             except AnalysisBroken as e:
